@@ -185,3 +185,117 @@ Example C03_paren_target_rejected :
   (exists b, parse_bytes (fun _ => 0%Z) classify_tok c03_paren_src2 = Ok (PR b [] [PeCannotAssign])).
 Proof. split; eexists; vm_compute; reflexivity. Qed.
 (* END token-level grammar *)
+
+(* BEGIN lexical level *)
+(* Lexical level (agent lex-grammar): the model lexer (Model/Lexer.v = lexer/lexer.go) recognises exactly the lexical
+   grammar of Spec/LuaLex.v - white space, line breaks, short and long comments, long brackets of every level, names
+   versus the 22 keywords, operators / punctuation by longest match, numerals as the reference lexer cuts them, short
+   strings - from the file BYTES (byte order mark and `#` first line included), for every GBK oracle.
+   `LexesTo bs sts`: the bytes split into the tokens sts (kind + lexeme) with the MANUAL's escape sequences;
+   `LexesToWith EscCode`: the same grammar with the escape sequences lexer.go accepts (EscCode, Proofs/LexerGrammarStr.v).
+   `tok_ok t s`: the model token t has the kind of s, and its text unless it is a string (the model keeps the
+   decoded value of a string).  "No lexical error" = no token of lex_all carries an error (flat_map lerrs ts = []).
+   Numerals: the CUT is specified here (read_numeral of Lua 5.3 + the LuaJIT suffix letters); whether the text that
+   was cut is a numeral is decided on the token (C03_number_ok_token / num_ok in Chunk), as in the reference lexer. *)
+From LH Require Import Spec.LuaLex.
+From LH Require Import Proofs.LexerGrammarStr Proofs.LexerGrammarMain Proofs.LexerGrammarEsc Proofs.LexerGrammarWitness
+  Proofs.LexerGrammarChunk.
+
+(* valid text is never flagged at the lexical level, and is lexed to its own tokens *)
+Theorem C03_lex_complete : forall gbk_runes bs sts,
+  LexesTo bs sts ->
+  exists body eof, lex_all gbk_runes bs = Ok (body ++ [eof]) /\ Forall2 tok_ok body sts /\
+                   tk (lt eof) = TkEOF /\ flat_map lerrs (body ++ [eof]) = [].
+Proof. exact lex_all_complete. Qed.
+Print Assumptions C03_lex_complete.
+
+(* ... in the shape of the plan: kinds only *)
+Corollary C03_lex_complete_kinds : forall gbk_runes bs sts,
+  LexesTo bs sts ->
+  exists ts, lex_all gbk_runes bs = Ok ts /\ map (fun t => tk (lt t)) ts = map sk sts ++ [TkEOF] /\
+             flat_map lerrs ts = [].
+Proof. exact lex_all_complete_kinds. Qed.
+Print Assumptions C03_lex_complete_kinds.
+
+(* the exact language of the lexer, no guard: no lexical error <-> the bytes are lexically valid with the CODE's
+   escape sequences (both directions; the tokens are the ones of the grammar) *)
+Theorem C03_lex_sound_code : forall gbk_runes bs ts,
+  lex_all gbk_runes bs = Ok ts -> flat_map lerrs ts = [] ->
+  exists body eof sts, ts = body ++ [eof] /\ tk (lt eof) = TkEOF /\ LexesToWith EscCode bs sts /\
+                       Forall2 tok_ok body sts.
+Proof. exact lex_all_sound_code. Qed.
+Print Assumptions C03_lex_sound_code.
+
+Theorem C03_lex_complete_code : forall gbk_runes bs sts,
+  LexesToWith EscCode bs sts ->
+  exists body eof, lex_all gbk_runes bs = Ok (body ++ [eof]) /\ Forall2 tok_ok body sts /\
+                   tk (lt eof) = TkEOF /\ flat_map lerrs (body ++ [eof]) = [].
+Proof. exact lex_all_complete_code. Qed.
+Print Assumptions C03_lex_complete_code.
+
+(* the manual's escapes are among the code's (layer "strings", spec level) and conversely under the guard *)
+Theorem C03_lex_manual_sub_code : forall bs sts, LexesTo bs sts -> LexesToWith EscCode bs sts.
+Proof. exact lexes_lua_code. Qed.
+Print Assumptions C03_lex_manual_sub_code.
+
+(* no lexical error + every unescaped backslash of the text starts a legal escape => lexically valid Lua.
+   no_bad_escape is context free (it also constrains backslashes in comments and long strings): a sufficient guard *)
+Theorem C03_lex_sound_guarded : forall gbk_runes bs ts,
+  lex_all gbk_runes bs = Ok ts -> flat_map lerrs ts = [] -> no_bad_escape bs = true ->
+  exists body eof sts, ts = body ++ [eof] /\ tk (lt eof) = TkEOF /\ LexesTo bs sts /\ Forall2 tok_ok body sts.
+Proof. exact lex_all_sound_guarded. Qed.
+Print Assumptions C03_lex_sound_guarded.
+
+(* the guard is necessary: "\q" "\xZZ" "\256" "\u{}" "\300" "\u{zz}" "\u{7FFFFFFFF}" are accepted by the code without a
+   lexical error (impl == model), violate the guard, and are NOT lexically valid (spec): DESIGN 6 row 7, the recorded
+   deviation (readEscapeSequence: the `x` and `default` branches never report, `\u` is not handled).
+   Which escapes the SPEC accepts: exactly the manual's (EscLua: \a \b \f \n \r \t \v \\ \dquote \quote, backslash + line
+   break, \z, \xXX, \d{1,3} <= 255, \u{X+} < 2^31); nothing of the implementation's leniency is absorbed there. *)
+Theorem C03_escape_refuted : forall gbk_runes,
+  Forall (fun bs => accepted_by_code gbk_runes bs /\ no_bad_escape bs = false /\ ~ exists sts, LexesTo bs sts)
+         [w_esc_q; w_esc_x; w_esc_256; w_esc_u; w_esc_300; w_esc_uzz; w_esc_ubig].
+Proof. exact escape_witnesses. Qed.
+Print Assumptions C03_escape_refuted.
+
+(* every escape sequence of the manual passes the test the guard applies *)
+Theorem C03_guard_admits_manual_escapes : forall e r, EscLua e r -> legal_escape (e ++ r) = true.
+Proof. exact esc_lua_legal. Qed.
+Print Assumptions C03_guard_admits_manual_escapes.
+
+(* non-vacuity: a text with a `#` line, every token class, every escape form of the manual, long brackets of levels
+   0 - 2, both comment forms, all numeral forms satisfies the guard and is lexically valid (50 tokens) *)
+Example C03_lex_guard_inhabited :
+  no_bad_escape w_lex_demo = true /\ exists sts, LexesTo w_lex_demo sts /\ length sts = 50%nat.
+Proof. exact lex_demo_valid. Qed.
+
+(* Recorded leniency of the SPEC (deliberate, the one place where it follows the implementation rather than Lua 5.4):
+   a numeral ends where the run of numeral characters ends and a letter may follow directly - read_numeral of Lua
+   5.2 / 5.3; Lua 5.4 rejects a "numeral touching a letter"; the repository's own TestParseJitNumber pins `0then`.
+   So `a = 1x = 2` IS lexically valid here (tokens a = 1 x = 2) and is not flagged; `a = 3y()` likewise. If the lead
+   wants the 5.4 reading, Tk_number needs the side condition  hd_is lx_alpha r = false  and this becomes a finding. *)
+Example C03_numeral_touching_letter_valid :
+  exists sts, LexesTo w_num_letter sts /\
+              map sk sts = [TkIdentifier; TkOpAssign; TkNumber; TkIdentifier; TkOpAssign; TkNumber].
+Proof. exact numeral_touching_letter. Qed.
+
+(* both levels: for a file that satisfies the guard, NO syntax diagnostic <-> the bytes are a lexically valid token
+   sequence and the token list (which agrees with that sequence, tok_ok) is a Chunk.  <- needs no guard. *)
+Theorem C03_bytes_iff_guarded : forall classify gbk_runes bs ts r,
+  lex_all gbk_runes bs = Ok ts -> parse_bytes gbk_runes classify bs = Ok r -> no_bad_escape bs = true ->
+  (flagged r = false <-> ValidBytes classify bs ts).
+Proof. exact bytes_iff_guarded. Qed.
+Print Assumptions C03_bytes_iff_guarded.
+
+Theorem C03_bytes_complete : forall classify gbk_runes bs ts r,
+  lex_all gbk_runes bs = Ok ts -> parse_bytes gbk_runes classify bs = Ok r ->
+  ValidBytes classify bs ts -> flagged r = false.
+Proof. exact bytes_complete. Qed.
+Print Assumptions C03_bytes_complete.
+(* numerals: every numeral token of a lexically valid text is a text scanNumber can cut (num_lexer_token), so the
+   parser's "not a number" check on it is exactly the grammar of numerals (with C03_number_ok_token) *)
+From LH Require Import Proofs.LexerGrammarNum.
+Theorem C03_lex_numbers_checked : forall bs sts, LexesTo bs sts ->
+  Forall (fun t => sk t = TkNumber -> (classify_number (stxt t) <> Ok NumBad <-> Numeral (stxt t))) sts.
+Proof. exact lexes_numbers_checked. Qed.
+Print Assumptions C03_lex_numbers_checked.
+(* END lexical level *)
